@@ -215,6 +215,26 @@ func runC19(r *Report) {
 			ok := CalleeName(s.Call()) == "iface:rueidis.conn.DoMulti" && len(els) == 2 && isAsking(els[0])
 			r.ObSite("R19d", s, "ask-arm-sends-asking-first", ok, "the ASK arm re-sends [ASKING, cmd] as one batch")
 		}
+		// the re-send may live in an unexported helper called from the ASK arm
+		for _, cs := range Sites(fn, func(in ssa.Instruction) bool { _, ok := in.(*ssa.Call); return ok }) {
+			callee := cs.Call().Common().StaticCallee()
+			if callee == nil || callee.Blocks == nil || callee.Pkg != fn.Pkg || isExportedName(callee.Name()) || callee.Signature.Recv() != nil {
+				continue
+			}
+			if !Guarded(cs.Block, func(g Guard) bool { k, eq, ok := modeGuard(g); return ok && eq && k == j.redirectAsk }) {
+				continue
+			}
+			for _, s := range Sites(callee, func(in ssa.Instruction) bool { _, ok := sendKind(in); return ok }) {
+				n++
+				els := variadicElemsOrdered(s.Call().Common().Args[len(s.Call().Common().Args)-1])
+				ok := CalleeName(s.Call()) == "iface:rueidis.conn.DoMulti" && len(els) == 2 && isAsking(els[0])
+				if ok {
+					_, isParam := Strip(els[1]).(*ssa.Parameter)
+					ok = isParam
+				}
+				r.ObSite("R19d", s, "ask-arm-sends-asking-first", ok, "the helper the ASK arm calls re-sends [ASKING, cmd] as one batch")
+			}
+		}
 		r.Anchor("R19d", "ASK arm of clusterClient.do", n >= 1)
 	}
 	if fn := p.Fn("rueidis.(*clusterClient).doCache"); fn != nil {
